@@ -120,10 +120,21 @@ def _truth(value):
 class Evaluator:
     """evaluate(ast) -> list of output row tuples (bag; ordered only when the statement orders)."""
 
-    def __init__(self, ast, data):
+    def __init__(self, ast, data, occurrences=None):
+        """``occurrences``: optional list of row lists, one per table *occurrence* in visit order (depth-first, left to
+        right) - lets a check give every occurrence of a table its own (e.g. hint-filtered) content."""
         self.ast = dslgen.norm(ast)
         self.env = dslgen.Env(self.ast)
         self.data = data
+        self.occurrences = occurrences
+        self.visited = 0
+
+    def rows_of(self, name):
+        if self.occurrences is None:
+            return [tuple(r) for r in self.data[name]]
+        rows = self.occurrences[self.visited]
+        self.visited += 1
+        return [tuple(r) for r in rows]
 
     def run(self):
         return self.statement(self.ast)
@@ -133,12 +144,12 @@ class Evaluator:
         tag = source[0]
         if tag == 'table':
             cols = [(source[1], c) for c, _ in self.env.schema[source[1]]]
-            return cols, [tuple(r) for r in self.data[source[1]]]
+            return cols, self.rows_of(source[1])
         if tag == 'reference':
             inner = source[1]
             if inner[0] == 'table':
                 cols = [(source[2], c) for c, _ in self.env.schema[inner[1]]]
-                return cols, [tuple(r) for r in self.data[inner[1]]]
+                return cols, self.rows_of(inner[1])
             names = [n for n, _ in dslgen.schema_of(inner, self.env)]
             return [(source[2], n) for n in names], self.statement(inner)
         if tag == 'join':
